@@ -142,6 +142,7 @@ def run(ctx):
                  "X7": "a child is pushed only if its length > 2",
                  "X8": "split index interior ([1, L-2]) and == argmax of the interior distances (int(L/2) under the zero-distance guard)"}.items():
         res.rule(k, v)
+    rm.check_distance_dispatch(rc, "X8", "rdp.rdp_fixed")
     members = rc.repo.mod("rdp").classes["Order"].enum_members
     if sorted(members) != sorted(ORDERS):
         res.error(f"X6: rdp.Order has members {members}; the rule table knows {ORDERS}")
